@@ -120,12 +120,75 @@ def run_lv(ctx, profile, extra=None, prop=None, timeout=3600, tier=None):
         case = int(open(out + ".stuck").read().strip())
         return _confirm_stuck(ctx, cmd, out, case)
     if p.returncode != 0 or not os.path.exists(out):
+        doc = _confirm_crash(ctx, cmd, out, p.returncode)
+        if doc is not None:
+            return doc
         raise Inconclusive("harness process ended with status %s without a result: %s"
                            % (p.returncode, " ".join(cmd)))
     with open(out) as f:
         doc = json.load(f)
     doc["_cmd"] = cmd
     return doc
+
+
+def _status_name(rc):
+    import signal
+    if rc < 0:
+        try:
+            return signal.Signals(-rc).name
+        except ValueError:
+            return "signal-%d" % -rc
+    return "exit-%d" % rc
+
+
+def _confirm_crash(ctx, cmd, out, rc, cpu_limit=120):
+    """The harness process ended without a result (signal, abort, stack overflow, a direct
+    process::exit from inside lace). The cases in flight are in <out>.inflight: re-run each alone;
+    a case that ends the process again, the same way, is a witness. Anything else: undecided.
+    SIGKILL (OOM killer, outside kill) and 101 (a panic of the harness itself) never count."""
+    import resource
+    import struct
+    if rc in (-9, 101, 3):
+        return None
+    try:
+        raw = open(out + ".inflight", "rb").read()
+    except OSError:
+        return None
+    cands = sorted({v - 1 for (v,) in struct.iter_unpack("<Q", raw[:len(raw) // 8 * 8]) if v})
+    if "--only-case" in cmd:
+        cands = [int(cmd[cmd.index("--only-case") + 1])]
+
+    def limit():
+        resource.setrlimit(resource.RLIMIT_CPU, (cpu_limit, cpu_limit + 5))
+    base = [a for a in cmd]
+    if "--only-case" in base:
+        i = base.index("--only-case")
+        del base[i:i + 2]
+    for case in cands[:64]:
+        for f in (out, out + ".inflight"):
+            if os.path.exists(f):
+                os.remove(f)
+        single = base + ["--only-case", str(case), "--threads", "1"]
+        statuses = []
+        for _ in range(2):
+            q = subprocess.run(single, stdin=subprocess.DEVNULL, stdout=subprocess.DEVNULL,
+                               stderr=subprocess.PIPE, env=ENV, preexec_fn=limit)
+            statuses.append(q.returncode)
+            if q.returncode != rc or os.path.exists(out):
+                break
+        if statuses == [rc, rc] and not os.path.exists(out):
+            prop = cmd[1]
+            tail = q.stderr.decode("utf-8", "replace")[-600:]
+            key = "%s/process-ended/%s" % (prop, _status_name(rc))
+            return {"property": prop, "tier": cmd[3], "seed": int(cmd[5]), "profile": cmd[7],
+                    "evaluations": 1, "distinct_nontrivial": 1, "classes": {"process_ended_in_case": 1},
+                    "samples": [], "floors_missing": [], "inconclusive": {}, "exhaustive": False,
+                    "violation_counts": {key: 1},
+                    "violations": [{"key": key, "case": case,
+                                    "what": "case %d ends the whole process (%s) from inside the code under test, twice out of twice when run alone; the rest of the workload was not run" % (case, _status_name(rc)),
+                                    "detail": {"case": case, "cmd": single, "stderr_tail": tail}}],
+                    "wall_s": 0.0, "extra": {}, "_cmd": cmd}
+    return None
 
 
 def _confirm_stuck(ctx, cmd, out, case, cpu_limit=120):
